@@ -750,6 +750,13 @@ def precedence_oracle(ctx, via, builtin, files, sec, overrides, final, lang, des
                               observed=wire(got) if got is not _ABSENT else None))
 
 
+def type_change_pair(rng, sec, keep_options):
+    """two consecutive files: the first replaces a built-in MAP by a non-map (null / scalar), the second gives a map for
+    the same key — merged one after the other the built-in entries are gone (deep union is not associative here)"""
+    k = rng.choice(["named_types", "named_values"] + ([] if keep_options else ["options"]))
+    return [{sec: {k: rng.choice([None, "", 0, "x"])}}, {sec: {k: {rng.choice(["zz_a", "byte", "std"]): rng.choice(["v", "c11", None])}}}]
+
+
 class BuilderRun:
     """One real LanguageContextBuilder driven by a random call sequence (and the same calls for the model)."""
 
@@ -763,6 +770,9 @@ class BuilderRun:
         calls = []
         for _ in range(rng.randint(0, 3)):
             calls.append(("file", gen_file_doc(rng, [sec, sec, "nunavut.lang.c"])))
+        if rng.random() < 0.3:
+            for d in type_change_pair(rng, sec, cpp or self.lang == "py"):
+                calls.append(("file", d))
         for _ in range(rng.randint(0, 3)):
             r = rng.random()
             if r < 0.6:
@@ -827,6 +837,88 @@ class BuilderRun:
         return wire(self.ctx_obj.config.sections()), wire(dict(lang.get_options())), json.dumps(vals, sort_keys=True)
 
 
+class MultiCreateRun:
+    """ONE builder, several create() calls with files / overrides added in between; every context is compared."""
+
+    def __init__(self, ctx, rng, builtin_wire, builtin_py):
+        from nunavut.lang import LanguageContextBuilder
+        self.lang = rng.choice(["c", "c", "cpp"])
+        cpp = self.lang == "cpp"
+        sec = self.section = "nunavut.lang." + self.lang
+        b = LanguageContextBuilder(include_experimental_languages=True)
+        b.set_target_language(self.lang)
+        self.ops = ["L" + enc_atom(sec)]
+        self.snapshots, self.error = [], None
+        files, ovr = [], {}
+        hot = rng.choice(["target_endianness", "enable_serialization_asserts", "zz_new"])
+        hotvals = {"target_endianness": ["big", "little", "any"], "enable_serialization_asserts": [True, False], "zz_new": [1, 2, None]}[hot]
+        try:
+            for seg in range(rng.choice([2, 2, 3])):
+                calls = []
+                for _ in range(rng.randint(0, 2)):
+                    calls.append(("file", gen_file_doc(rng, [sec], extra=())))
+                if seg >= 1 and rng.random() < 0.7:
+                    calls.append(("file", {sec: {"options": {hot: rng.choice(hotvals)}}}))
+                for _ in range(rng.randint(0, 2)):
+                    calls.append(("ovr", "options", gen_options(rng, cpp)))
+                if seg == 0 and rng.random() < 0.7:
+                    v = rng.choice(hotvals)
+                    calls.append(("ovr", "options", {hot: v if rng.random() < 0.8 else DV()(v)}))
+                if rng.random() < 0.3:
+                    calls.append(("ovr", rng.choice(["namespace_file_stem", "new_key"]), rng.choice(["_o", None, ""])))
+                rng.shuffle(calls)
+                batch = [c for c in calls if c[0] == "file"]
+                for c in calls:
+                    if c[0] == "ovr":
+                        self.ops.append("O" + enc_atom(c[1]) + "=" + ("!" if c[2] is None else wire(c[2])))
+                        b.set_target_language_configuration_override(c[1], c[2])
+                        if c[2] is not None:
+                            ovr[c[1]] = c[2]
+                if batch:
+                    paths = [scratch_yaml(ctx, rng, c[1]) for c in batch]
+                    for c in batch:
+                        self.ops.append("F" + wire(c[1]))
+                        files.append(c[1])
+                    if rng.random() < 0.5:
+                        b.add_config_files(*paths)
+                    else:
+                        for q in paths:
+                            b.add_config_files(q)
+                self.ops.append("X" if cpp else "C")
+                lctx = b.create()
+                secs = lctx.config.sections()
+                self.snapshots.append(wire(secs))
+                ctx.count("creates_on_reused_builder")
+                # chronological chain: files so far, interleaved with the overrides as merged at each earlier create();
+                # the overrides pending NOW are merged last (explicit API value over every file added so far)
+                precedence_oracle(ctx, "builder-recreate", builtin_py, list(files), sec, dict(ovr), secs, self.lang,
+                                  {"ops": list(self.ops), "create_number": seg + 1})
+                files.append({sec: copy.deepcopy(ovr)})
+        except Exception as e:  # noqa
+            self.error = cfg_exc_kind(e)
+        self.line = "build " + builtin_wire + " " + " ".join(self.ops)
+
+    def impl_answer(self):
+        return " ".join(["ok"] + self.snapshots + ([self.error] if self.error else []))
+
+
+def stream_multi_create(ctx, drv, rng):
+    builtin, builtin_py = builtin_sections_wire(), builtin_sections_py()
+    n = 60 if ctx.quick else 700
+    runs = [MultiCreateRun(ctx, rng, builtin, builtin_py) for _ in range(n)]
+    for r in runs:
+        ctx.case(("multi-create", tuple(r.ops)), True)
+    if drv:
+        for r, m in zip(runs, drv.ask([r.line for r in runs], timeout=1200)):
+            ctx.traces += 1
+            g = r.impl_answer()
+            if m != g:
+                mm, gg = m.split(" "), g.split(" ")
+                k = next((i for i in range(min(len(mm), len(gg))) if mm[i] != gg[i]), min(len(mm), len(gg)))
+                ctx.disagree("LanguageContextBuilder/repeated-create", {"ops": r.ops, "lang": r.lang, "first_differing_create": k},
+                             (mm[k] if k < len(mm) else "<none>")[:3000], (gg[k] if k < len(gg) else "<none>")[:3000])
+
+
 def builtin_sections_wire():
     from nunavut.lang._language import LanguageClassLoader
     return wire(LanguageClassLoader().config.sections())
@@ -875,6 +967,23 @@ def stream_builders(ctx, drv, rng):
                 ovr[c[1]] = c[2]
         precedence_oracle(ctx, "builder", builtin_py, [c[1] for c in r.files], r.section, ovr, secs, r.lang,
                           {"ops": r.ops, "file_paths_per_call": r.paths})
+        if len(r.files) >= 2:
+            b1 = LanguageContextBuilder(include_experimental_languages=True)
+            try:
+                for c in r.files:
+                    b1.add_config_files(scratch_yaml(ctx, rng, c[1]))
+                for c in r.others:
+                    b1.set_target_language_configuration_override(c[1], copy.deepcopy(c[2]))
+                b1.set_target_language(r.lang)
+                single = wire(b1.create().config.sections())
+            except Exception as e:  # noqa
+                single = cfg_exc_kind(e)
+            ctx.count("call_groupings_compared")
+            if not (single == other == wire(secs)):
+                ctx.fail({"kind": "call-grouping-dependence", "via": "builder"},
+                         "add_config_files(f1, f2) is not add_config_files(f1); add_config_files(f2)",
+                         {"ops": r.ops, "files_in_call_order": [wire(c[1]) for c in r.files], "files_per_call_as_called": r.paths,
+                          "one_file_per_call": single[:3000], "all_files_in_one_call": other[:3000], "as_called": wire(secs)[:3000]})
         ctx.count("interleavings_compared")
         if other != wire(secs):
             ctx.fail({"kind": "interleaving-dependence"}, "the configuration at create() depends on how add_config_files and override calls are interleaved",
@@ -950,6 +1059,9 @@ def stream_cli(ctx, drv, rng):
         for j in range(rng.choice([0, 1, 2, 2, 3])):
             doc = gen_file_doc(rng, [sec], extra=(), falsy=(i >= nsub))
             given.append((scratch_yaml(ctx, rng, doc), doc))
+        if i >= nsub and rng.random() < 0.25:
+            for doc in type_change_pair(rng, sec, lang == "cpp"):
+                given.append((scratch_yaml(ctx, rng, doc), doc))
         if given:
             cut = rng.randrange(1, len(given)) if (len(given) > 1 and rng.random() < 0.2) else 0
             if cut:   # the flag given twice: argparse keeps the last group only
@@ -993,13 +1105,33 @@ def stream_cli(ctx, drv, rng):
                 ovr["namespace_file_stem"] = stem
             precedence_oracle(ctx, "cli", builtin_py, [d for _, d in files], sec, ovr, secs, lang or "c",
                               {"argv": [a if not a.startswith(str(ctx.scratch)) else a[len(str(ctx.scratch)) + 1:] for a in argv]})
+            if len(files) >= 2:
+                from nunavut.lang import LanguageContextBuilder
+                rb = LanguageContextBuilder(include_experimental_languages=True)
+                try:
+                    rb.set_target_language(args.target_language)
+                    for pth, _ in files:
+                        rb.add_config_files(pth)
+                    rb.set_target_language_extension(args.output_extension)
+                    rb.set_target_language_configuration_override("namespace_file_stem", args.namespace_output_stem)
+                    rb.set_target_language_configuration_override("options", copy.deepcopy(opts))
+                    ref = wire(rb.create().config.sections())
+                except Exception as e:  # noqa
+                    ref = cfg_exc_kind(e)
+                ctx.count("cli_call_groupings_compared")
+                if ref != wire(secs):
+                    ctx.fail({"kind": "call-grouping-dependence", "via": "cli"},
+                             "--configuration f1 f2 does not give what adding f1, then f2, gives",
+                             {"argv": [a if not a.startswith(str(ctx.scratch)) else a[len(str(ctx.scratch)) + 1:] for a in argv],
+                              "files_in_order": [wire(d) for _, d in files], "one_file_per_call": ref[:3000], "cli": wire(secs)[:3000]})
             # the file's explicit value must survive a flag that was not given (issue #329)
             fileval = _ABSENT
             for _, d in files:
                 v = at(d, (sec, "options", "enable_serialization_asserts"))
                 if v is not _ABSENT:
                     fileval = v
-            if not flags["enable_serialization_asserts"] and fileval is not _ABSENT:
+            p329 = (sec, "options", "enable_serialization_asserts")
+            if not flags["enable_serialization_asserts"] and fileval is not _ABSENT and all(compat(d, p329) for _, d in files):
                 got = runner._language_context.get_target_language().get_option("enable_serialization_asserts")
                 ctx.count("cli_default_vs_file")
                 if not same(got, fileval):
@@ -1325,6 +1457,7 @@ def run(ctx: common.Ctx):
     stream_language_config(ctx, drv, rng)
     stream_cppstd(ctx, drv, rng)
     stream_builders(ctx, drv, rng)
+    stream_multi_create(ctx, drv, rng)
     stream_cli(ctx, drv, rng)
     stream_cpp_shorthand_vs_files(ctx, rng)
     stream_cli_defaults_vs_files(ctx, rng)
